@@ -312,6 +312,8 @@ func c14Child() {
 	}
 	out := c14ChildOut{Hook: c14HookActive()}
 	for _, p := range progs {
+		// a panic on a worker goroutine of csvq cannot be recovered here: leave a trace of where we are
+		_ = os.WriteFile(resFile+".current", []byte(fmt.Sprint(p.ID)), 0644)
 		out.Results = append(out.Results, c14RunProgram(p, repoDir))
 	}
 	b, _ := json.Marshal(out)
